@@ -132,7 +132,16 @@ func cmdChild(props map[string]Property, args []string) int {
 	mark := fs.String("mark", "", "")
 	only := fs.Int("only", -1, "run a single unit")
 	stall := fs.Int("stall", 180, "seconds without progress before the watchdog fires")
+	skip := fs.String("skip", "", "comma separated units to skip (they stalled or killed an earlier child)")
+	from := fs.Int("from", 0, "first unit to consider")
+	memMB := fs.Int("mem", 6000, "heap megabytes before the watchdog fires")
 	fs.Parse(args)
+	skipSet := map[int]bool{}
+	for _, x := range strings.Split(*skip, ",") {
+		if n, err := strconv.Atoi(x); err == nil {
+			skipSet[n] = true
+		}
+	}
 	p := props[*prop]
 	if p == nil {
 		fmt.Fprintln(os.Stderr, "unknown property", *prop)
@@ -148,11 +157,16 @@ func cmdChild(props map[string]Property, args []string) int {
 		col.markFile = f
 	}
 	col.markTime = time.Now()
+	if *out != "" {
+		col.violFile, _ = os.Create(*out + ".viol")
+		col.doneFile, _ = os.Create(*out + ".done")
+	}
 	var mu sync.Mutex
 	done := false
 	go func() { // watchdog: wall clock is used only to detect a stuck harness, never as an oracle
-		for {
-			time.Sleep(2 * time.Second)
+		var ms runtime.MemStats
+		for i := 0; ; i++ {
+			time.Sleep(250 * time.Millisecond)
 			mu.Lock()
 			d := done
 			mu.Unlock()
@@ -163,16 +177,23 @@ func cmdChild(props map[string]Property, args []string) int {
 				fmt.Fprintf(os.Stderr, "WATCHDOG: no progress for %ds in unit %d; last case: %s\n", *stall, col.Unit, strings.TrimSpace(string(col.lastMark)))
 				os.Exit(3)
 			}
+			runtime.ReadMemStats(&ms)
+			if ms.HeapAlloc > uint64(*memMB)<<20 {
+				fmt.Fprintf(os.Stderr, "WATCHDOG: heap %d MB in unit %d; last case: %s\n", ms.HeapAlloc>>20, col.Unit, strings.TrimSpace(string(col.lastMark)))
+				os.Exit(3)
+			}
 		}
 	}()
 	env := &Env{Tier: *tier, Seed: *seed, Out: col}
+	col.seed, col.tier = *seed, *tier
+	lastFlush := time.Now()
 	n := p.Units(*tier, *seed)
 	for u := 0; u < n; u++ {
 		if *only >= 0 {
 			if u != *only {
 				continue
 			}
-		} else if u%*of != *shard {
+		} else if u%*of != *shard || u < *from || skipSet[u] {
 			continue
 		}
 		col.Unit = u
@@ -189,6 +210,17 @@ func cmdChild(props map[string]Property, args []string) int {
 			p.RunUnit(env, u)
 		}()
 		col.Stats["units"]++
+		if col.doneFile != nil {
+			fmt.Fprintf(col.doneFile, "%d\n", u)
+		}
+		if time.Since(lastFlush) > 5*time.Second && *out != "" {
+			lastFlush = time.Now()
+			col.finish()
+			if bs, err := json.Marshal(col); err == nil {
+				os.WriteFile(*out+".part", bs, 0o644)
+				os.Rename(*out+".part", *out)
+			}
+		}
 	}
 	mu.Lock()
 	done = true
@@ -364,6 +396,8 @@ func tail(s string, n int) string {
 // ---- run: the orchestrator ------------------------------------------------------
 
 type childResult struct {
+	lastDone int
+	hungUnit int
 	shard  int
 	exit   int
 	stderr string
@@ -425,16 +459,51 @@ func cmdRun(props map[string]Property, args []string) int {
 			self = b
 		}
 	}
-	results := make([]childResult, n)
+	stall := 180
+	if st, ok := p.(interface{ StallSeconds(tier string) int }); ok {
+		stall = st.StallSeconds(*tier)
+	}
+	perShard := make([][]childResult, n)
 	var wg sync.WaitGroup
 	for i := 0; i < n; i++ {
 		wg.Add(1)
 		go func(i int) {
 			defer wg.Done()
-			results[i] = runChild(p, hook, self, scratch, *tier, seed, i, n, -1)
+			var skip []int
+			from := 0
+			for attempt := 0; attempt < 25; attempt++ {
+				r := runChild(p, hook, self, scratch, *tier, seed, i, n, from, skip, stall, attempt)
+				perShard[i] = append(perShard[i], r)
+				if r.exit == 0 && r.err == nil {
+					break
+				}
+				// the child died or stalled: continue after the unit it was executing
+				hung := from
+				if r.lastDone >= 0 {
+					hung = r.lastDone + 1
+				}
+				skipped := map[int]bool{}
+				for _, u := range skip {
+					skipped[u] = true
+				}
+				for hung%n != i || skipped[hung] {
+					hung++
+				}
+				r.hungUnit = hung
+				perShard[i][len(perShard[i])-1] = r
+				skip = append(skip, hung)
+				from = hung + 1
+				if from >= units {
+					break
+				}
+			}
 		}(i)
 	}
 	wg.Wait()
+	var results []childResult
+	for _, rs := range perShard {
+		results = append(results, rs...)
+	}
 
 	total := NewCollector()
 	infra := []string{}
@@ -462,13 +531,12 @@ func cmdRun(props map[string]Property, args []string) int {
 				w.Seed, w.Tier = seed, *tier
 				fatal = append(fatal, w)
 				// the shard's remaining units were lost; say so
-				infra = append(infra, fmt.Sprintf("shard %d died with a confirmed violation (%s); its remaining units were not run", r.shard, w.Class))
 				continue
 			}
-			infra = append(infra, fmt.Sprintf("shard %d died (exit %d) and the suspected case did not reproduce alone: %s\n%s", r.shard, r.exit, v.Class, tail(r.stderr, 1500)))
+			infra = append(infra, fmt.Sprintf("shard %d died (exit %d) in unit %d and the suspected case did not reproduce alone: %s\n%s", r.shard, r.exit, r.hungUnit, v.Class, tail(r.stderr, 1500)))
 			continue
 		}
-		infra = append(infra, fmt.Sprintf("shard %d exited with %d: %v\n%s", r.shard, r.exit, r.err, tail(r.stderr, 2000)))
+		infra = append(infra, fmt.Sprintf("shard %d exited with %d in unit %d (unit skipped): %v\n%s", r.shard, r.exit, r.hungUnit, r.err, tail(r.stderr, 2000)))
 	}
 	for _, v := range fatal {
 		total.Violations = append(total.Violations, *v)
@@ -579,15 +647,20 @@ func Short2(s string, n int) string {
 	return s
 }
 
-func runChild(p Property, hook ChildHook, self, scratch, tier string, seed uint64, shard, of, only int) childResult {
+func runChild(p Property, hook ChildHook, self, scratch, tier string, seed uint64, shard, of, from int, skip []int, stall, attempt int) childResult {
 	dir := filepath.Join(scratch, fmt.Sprintf("c%d", shard))
 	os.MkdirAll(dir, 0o755)
-	out := filepath.Join(dir, "result.json")
+	out := filepath.Join(dir, fmt.Sprintf("result%d.json", attempt))
 	mark := filepath.Join(dir, "mark.json")
 	args := []string{"child", "-prop", p.ID(), "-tier", tier, "-seed", strconv.FormatUint(seed, 10),
-		"-shard", strconv.Itoa(shard), "-of", strconv.Itoa(of), "-out", out, "-mark", mark}
-	if only >= 0 {
-		args = append(args, "-only", strconv.Itoa(only))
+		"-shard", strconv.Itoa(shard), "-of", strconv.Itoa(of), "-out", out, "-mark", mark,
+		"-from", strconv.Itoa(from), "-stall", strconv.Itoa(stall)}
+	if len(skip) > 0 {
+		ss := make([]string, len(skip))
+		for i, u := range skip {
+			ss[i] = strconv.Itoa(u)
+		}
+		args = append(args, "-skip", strings.Join(ss, ","))
 	}
 	cmd := exec.Command(self, args...)
 	cmd.Env = append(os.Environ(), "GOMAXPROCS=2")
@@ -600,7 +673,7 @@ func runChild(p Property, hook ChildHook, self, scratch, tier string, seed uint6
 	cmd.Stderr = &stderr
 	cmd.Stdout = &stderr
 	err := cmd.Run()
-	r := childResult{shard: shard, stderr: stderr.String()}
+	r := childResult{shard: shard, stderr: stderr.String(), lastDone: -1}
 	if err != nil {
 		if ee, ok := err.(*exec.ExitError); ok {
 			r.exit = ee.ExitCode()
@@ -616,7 +689,39 @@ func runChild(p Property, hook ChildHook, self, scratch, tier string, seed uint6
 			r.col = &col
 		}
 	}
+	if bs, e := os.ReadFile(out + ".done"); e == nil {
+		for _, l := range strings.Fields(string(bs)) {
+			if n, err := strconv.Atoi(l); err == nil {
+				r.lastDone = n
+			}
+		}
+	}
+	if r.lastDone < 0 && from > 0 {
+		// nothing completed in this attempt: the stalled unit is the first one at or after from
+		r.lastDone = -1
+	}
 	if r.exit != 0 {
+		// violations found before the child died
+		if bs, e := os.ReadFile(out + ".viol"); e == nil {
+			if r.col == nil {
+				r.col = NewCollector()
+				r.col.SetList = map[string][]uint64{}
+			}
+			for _, line := range strings.Split(string(bs), "\n") {
+				var v Violation
+				if line != "" && json.Unmarshal([]byte(line), &v) == nil {
+					dup := false
+					for _, w := range r.col.Violations {
+						if w.Key() == v.Key() {
+							dup = true
+						}
+					}
+					if !dup {
+						r.col.Violations = append(r.col.Violations, v)
+					}
+				}
+			}
+		}
 		if bs, e := os.ReadFile(mark); e == nil {
 			var c Case
 			if json.Unmarshal(bytes.TrimSpace(bs), &c) == nil && c.Property != "" {
